@@ -181,6 +181,12 @@ def correspond(ctx: Ctx, tp, presets):
             pat = [qp.tg("CNOT", (a,), (b,)), qp.tg("H", (), (a,)), qp.tg("CNOT", (a,), (b,))]
             if rng.random() < 0.3:
                 pat = pat + [qp.tg("H", (), (a,)), qp.tg("CNOT", (a,), (b,))]
+            elif rng.random() < 0.5:
+                # near misses of the window: H on another wire, second CNOT with another control / target / reversed
+                o = [q for q in range(n) if q not in (a, b)]
+                x = rng.choice([a, b] + o)
+                c2, t2 = rng.choice([(a, b), (b, a)] + [(a, q) for q in o] + [(q, b) for q in o])
+                pat = [qp.tg("CNOT", (a,), (b,)), qp.tg("H", (), (x,)), qp.tg("CNOT", (c2,), (t2,))]
             gs = gs[:pos] + pat + gs[pos:]
         cases.append(("fuseCHC", n, gs, ["fuseCHC"], T.CNOTHCNOTFusingTranspiler))
     for _ in range(N):
@@ -241,7 +247,14 @@ def correspond(ctx: Ctx, tp, presets):
         if rng.random() < 0.6:
             a, b = rng.sample(range(n), 2)
             pos = rng.randint(0, len(gs))
-            gs = gs[:pos] + [qp.tg("CNOT", (a,), (b,)), qp.tg("RZ", (), (b,), (rng.randint(-100, 100),)), qp.tg("CNOT", (a,), (b,))] + gs[pos:]
+            pat = [qp.tg("CNOT", (a,), (b,)), qp.tg("RZ", (), (b,), (rng.randint(-100, 100),)), qp.tg("CNOT", (a,), (b,))]
+            if rng.random() < 0.5:
+                # near misses of the window: RZ on the control or a spectator, second CNOT with another control / target / reversed
+                o = [q for q in range(n) if q not in (a, b)]
+                x = rng.choice([a, b, b] + o)
+                c2, t2 = rng.choice([(a, b), (b, a)] + [(a, q) for q in o] + [(q, b) for q in o])
+                pat = [qp.tg("CNOT", (a,), (b,)), qp.tg("RZ", (), (x,), (rng.randint(-100, 100),)), qp.tg("CNOT", (c2,), (t2,))]
+            gs = gs[:pos] + pat + gs[pos:]
         cases.append(("cnotRzRzz", n, gs, ["cnotRzRzz"], TQ.CNOTRZ2RZZTranspiler))
         gs2 = qp.random_grid_circuit(rng, 1, rng.randint(1, 4), ["U1q"], angle_pool=[0, -32, 64, 32, 5, 100, -64, 16])
         cases.append(("u1qNormalize", 1, gs2, ["ladder:0:U1qNormalizeWithRZTranspiler"], TQN.U1qNormalizeWithRZTranspiler))
@@ -577,6 +590,47 @@ def validate(ctx: Ctx, budget_s: float):
         ctx.count("validate.kak", "ok" if d <= 1e-6 else "MISMATCH")
         if d > 1e-6:
             ctx.witness("transpile:TwoQubitUnitaryMatrixKAKTranspiler", f"KAK decomposition differs from the input matrix by {d:.3g} (up to phase), no error raised",
+                        describe_circ(c), {"dist": d})
+    # peephole / fusion passes on 3-gate windows and their near misses (all placements on 3 wires)
+    from quri_parts.circuit import QuantumCircuit as _QC2
+    from quri_parts.circuit import gates as _g2
+
+    mids = [lambda q: _g2.RZ(q, rng.uniform(-3, 3)), lambda q: _g2.H(q), lambda q: _g2.S(q), lambda q: _g2.Z(q), lambda q: _g2.T(q),
+            lambda q: _g2.U1(q, rng.uniform(-3, 3)), lambda q: _g2.RX(q, rng.uniform(-3, 3))]
+    win_tr = [("CNOTRZ2RZZTranspiler", TQ.CNOTRZ2RZZTranspiler), ("CNOTHCNOTFusingTranspiler", T.CNOTHCNOTFusingTranspiler),
+              ("FuseRotationTranspiler", T.FuseRotationTranspiler)]
+    if hasattr(TQ, "QuantinuumSetTranspiler"):
+        win_tr.append(("QuantinuumSetTranspiler", TQ.QuantinuumSetTranspiler))
+    for _ in range(150 if ctx.quick() else 3000):
+        a, b = rng.sample(range(3), 2)
+        c2, t2 = rng.sample(range(3), 2)
+        c = _QC2(3)
+        if rng.random() < 0.3:
+            c.add_gate(_g2.H(rng.randrange(3)))
+        c.add_gate(_g2.CNOT(a, b))
+        c.add_gate(rng.choice(mids)(rng.randrange(3)))
+        c.add_gate(_g2.CNOT(c2, t2) if rng.random() < 0.8 else _g2.CZ(c2, t2))
+        if rng.random() < 0.3:
+            c.add_gate(_g2.RZ(rng.randrange(3), rng.uniform(-3, 3)))
+        name, cls = rng.choice(win_tr)
+        n_eval += 1
+        try:
+            out = cls()(c)
+        except Exception as e:  # noqa: BLE001
+            ctx.count("validate.window", "raised:" + type(e).__name__)
+            continue
+        try:
+            d = dense.phase_dist(dense.circuit_unitary(3, out.gates), dense.circuit_unitary(3, c.gates))
+        except KeyError:
+            ctx.count("validate.window", "oracle-unknown-gate")
+            continue
+        ctx.count("validate.window", "ok" if d <= 1e-6 else "MISMATCH")
+        if d > 1e-6:
+            key = "transpile:" + name
+            if name == "QuantinuumSetTranspiler" and any(g.name in ("RX", "RY") for g in c.gates):
+                # the preset normalises RX/RY(θ) through U1qNormalizeWithRZTranspiler's general branch (known finding)
+                key = "QuantinuumSetTranspiler.via-U1qNormalize-general-branch"
+            ctx.witness(key, f"{name}: output differs from input by {d:.3g} (up to phase) on a 3-gate window",
                         describe_circ(c), {"dist": d})
     ionq_validate(ctx, TI)
     clifford_approx_validate(ctx, T)
